@@ -38,17 +38,37 @@ func genC06Program(r *eng.Rng, th bool) *eng.Program {
 	var steps []eng.Step
 	for _, s := range p.Steps {
 		steps = append(steps, s)
-		if s.K == "batch" && r.Chance(2, 3) {
+		if s.K == "batch" && !gp.Lean && r.Chance(2, 3) {
 			steps = append(steps, eng.Step{K: "merge", A: "plain"}, eng.Step{K: "persist"})
 		}
 	}
-	steps = append(steps, eng.Step{K: "drain"}, eng.Step{K: "drain"}, eng.Step{K: "reopen", A: "caughtup"})
+	if r.Chance(1, 2) {
+		steps = append(steps, eng.Step{K: "drain"}, eng.Step{K: "drain"}, eng.Step{K: "reopen", A: "caughtup"})
+	} else {
+		// Close right after the last round, without the idle full compaction
+		// that draining would trigger (it would copy everything into a fresh
+		// file and so hide damage done to the current one): the reopened
+		// content must still be a prefix no older than what the store exposed.
+		steps = append(steps, eng.Step{K: "merge", A: "plain"}, eng.Step{K: "persist"}, eng.Step{K: "reopen", A: "early"})
+	}
 	p.Steps = steps
 	return p
 }
 
 // runFault executes the program with a fault plan.
+// roundOps records, for one completed round of the clean run, its kind and
+// the ordinal range of each operation kind issued during it.
+type roundOps struct {
+	Kind     string
+	From, To map[string]int
+}
+
 func runFault(p *eng.Program, faults []eng.Fault, scratch string, idx int) (*eng.Result, *eng.FS) {
+	res, fs, _ := runFaultRounds(p, faults, scratch, idx)
+	return res, fs
+}
+
+func runFaultRounds(p *eng.Program, faults []eng.Fault, scratch string, idx int) (*eng.Result, *eng.FS, []roundOps) {
 	dir := filepath.Join(scratch, fmt.Sprintf("case%06d", idx))
 	os.MkdirAll(dir, 0o755)
 	defer os.RemoveAll(dir)
@@ -66,13 +86,46 @@ func runFault(p *eng.Program, faults []eng.Fault, scratch string, idx int) (*eng
 			fs.SetPhase(point)
 		}
 	}
+	var rounds []roundOps
+	last := map[string]int{}
+	r.OnRound = func(k int, kind string) {
+		cur := fs.Counts()
+		rounds = append(rounds, roundOps{Kind: kind, From: last, To: cur})
+		last = cur
+	}
 	res := r.Run()
 	eng.WaitQuiescent(r.E.D.Watchdog)
-	return res, fs
+	return res, fs, rounds
 }
 
-func enumeratePlans(counts map[string]int, r *eng.Rng, budget int) [][]eng.Fault {
+func enumeratePlans(counts map[string]int, rounds []roundOps, r *eng.Rng, budget int) [][]eng.Fault {
 	var plans [][]eng.Fault
+	// Always included (also in the sampled quick tier): single failures of
+	// every sync / stat / write issued during a partial compaction round,
+	// and during the first full compaction round - those rounds are rare
+	// and their error paths differ from plain appends.
+	var must [][]eng.Fault
+	fullSeen := false
+	for _, ro := range rounds {
+		if ro.Kind != "partial" && !(ro.Kind == "full" && !fullSeen) {
+			continue
+		}
+		if ro.Kind == "full" {
+			fullSeen = true
+		}
+		for _, k := range []struct{ kind, mode string }{{"sync", "err"}, {"stat", "err"}, {"write", "err"}, {"write", "short"}, {"create", "err"}} {
+			for o := ro.From[k.kind]; o < ro.To[k.kind]; o++ {
+				must = append(must, []eng.Fault{{Kind: k.kind, Ordinal: o, Count: 1, Mode: k.mode}})
+			}
+		}
+	}
+	if len(must) > 60 {
+		for i := len(must) - 1; i > 0; i-- {
+			j := r.Intn(i + 1)
+			must[i], must[j] = must[j], must[i]
+		}
+		must = must[:60]
+	}
 	type km struct{ kind, mode string }
 	kinds := []km{{"write", "err"}, {"write", "short"}, {"sync", "err"}, {"create", "err"}, {"stat", "err"}}
 	for _, k := range kinds {
@@ -106,6 +159,9 @@ func enumeratePlans(counts map[string]int, r *eng.Rng, budget int) [][]eng.Fault
 		}
 		plans = plans[:budget]
 	}
+	if budget > 0 {
+		plans = append(must, plans...)
+	}
 	return plans
 }
 
@@ -134,7 +190,7 @@ func init() {
 			p := genC06Program(rg, c.Thorough())
 			p.Prop = "C06"
 			c.Progress(idx, c06Replay{Program: p})
-			res, fs := runFault(p, nil, c.Scratch, idx)
+			res, fs, rounds := runFaultRounds(p, nil, c.Scratch, idx)
 			sr.Evaluations++
 			if res.Inconclusive != "" || len(res.Violations) > 0 {
 				if len(res.Violations) > 0 {
@@ -149,7 +205,14 @@ func init() {
 				continue
 			}
 			counts := fs.Counts()
-			plans := enumeratePlans(counts, rg, budget)
+			plans := enumeratePlans(counts, rounds, rg, budget)
+			if c.Verbose {
+				var ks []string
+				for _, ro := range rounds {
+					ks = append(ks, ro.Kind)
+				}
+				fmt.Printf("case %d cfg=%s tail=%s rounds=%v plans=%d\n", idx, p.Cfg.Class(), p.Steps[len(p.Steps)-1].A, ks, len(plans))
+			}
 			sr.Counters["programs"]++
 			seen := map[string]bool{}
 			for _, plan := range plans {
